@@ -30,8 +30,15 @@ CALLS = {}        # (cls name, member) -> number of times the wrapper ran
 ERRORS = []      # (member key, phase, traceback text): monitor bugs, reported as INCONCLUSIVE
 
 
+DEGENERATE = [0]     # oracle refused an input as degenerate (outside the generator margins): not judged
+
+
 def _callback_error(key, phase, exc):
     import traceback
+
+    if type(exc).__name__ == "DegenerateInput":
+        DEGENERATE[0] += 1
+        return
 
     if len(ERRORS) < 20:
         ERRORS.append((str(key), phase, "".join(traceback.format_exception(type(exc), exc, exc.__traceback__, limit=5))[-1200:]))
